@@ -118,7 +118,7 @@ theorem runWriter_alone (st : RStore) (clock : Int) (op : WOp) (tok fresh : Nat)
                     { op, pc := .done r, tok, attemptsLeft := 4, committed := true }) := by
   have h1 : st.lockSetNX op.svr.addr.key tok =
       ({ st.touchLock op.svr.addr.key (some tok) with locks := st.locks.insert op.svr.addr.key ⟨tok, true⟩ }, true) := by
-    simp [lockSetNX, hno]
+    simp [lockSetNX, hno, leaseHasTTL_eq]
   cases hd : decideOp op (st.items[op.svr.addr.key]?) clock with
   | inl r =>
     simp [runWriter, wstep, Writer.start, h1, hd, touchLock]
